@@ -50,8 +50,8 @@ theorem list_rhs_is_gen : SimpleList.gen = rhsFixed := by
 
 /-! ### widgets/list -/
 
-/-- list.go's own `min` / `max` (which the interpreter has as built-ins inside index expressions), executed from their
-    bodies, are `min` / `max`. -/
+/-- list.go's own `min` / `max`, executed from their bodies, are `min` / `max` (a call `max(a, b)` inside an index
+    expression is a call into these bodies: `WidExec.listFns`). -/
 theorem minmax_body_eq_model (a b : Int) :
     runFun2 genB.listMin a b = .ok (some (min a b)) ∧ runFun2 genB.listMax a b = .ok (some (max a b)) := by
   rw [gen_bodies_parsed]; exact ⟨WidExec.lmin_run a b, WidExec.lmax_run a b⟩
@@ -66,14 +66,14 @@ theorem list_index_body_eq_model (s : SimpleList.St) : runListIndex genB.listInd
 
 /-- One operation of `List`, executed from the regenerated body (window height `h` where the method reads it). -/
 def listStepBody (s : SimpleList.St) : SimpleList.Op → Option (Except Unit (SimpleList.St × List SimpleList.Row))
-  | .down => runList genB.listDown s 0 0
-  | .up => runList genB.listUp s 0 0
-  | .home => runList genB.listHome s 0 0
-  | .«end» => runList genB.listEnd s 0 0
-  | .pageDown h => runList genB.listPageDown s h 0
-  | .pageUp h => runList genB.listPageUp s h 0
-  | .setItems k => runList genB.listSetItems s 0 k
-  | .draw h => runList genB.listDraw s h 0
+  | .down => runList genB genB.listDown s 0 0
+  | .up => runList genB genB.listUp s 0 0
+  | .home => runList genB genB.listHome s 0 0
+  | .«end» => runList genB genB.listEnd s 0 0
+  | .pageDown h => runList genB genB.listPageDown s h 0
+  | .pageUp h => runList genB genB.listPageUp s h 0
+  | .setItems k => runList genB genB.listSetItems s 0 k
+  | .draw h => runList genB genB.listDraw s h 0
 
 /-- **Every method of `List`, executed from its regenerated body, is the model's step** (`SimpleList.step` over the
     regenerated index expressions): same new state, same printed rows, and a panic (the slice expression
@@ -175,7 +175,7 @@ theorem pager_scroll_body_eq_model (segs : List (List Pager.Ch)) (s : Pager.St) 
     character to the line and the line to `m.lines` WITHOUT replacing `l` by a fresh `&line{}` leaves the SAME line object
     in `m.lines` twice — both entries show both characters, as in Go. -/
 example :
-    (match exec ⟨0, 0, [[⟨[97], 1⟩, ⟨[98], 1⟩]], lineCalls genB⟩
+    (match exec ⟨0, 0, [[⟨[97], 1⟩, ⟨[98], 1⟩]], lineCalls genB, noFn⟩
       (parseBody [
         ⟨0, .assign, (.var "d.lines"), (.lit "[]*line{}")⟩,
         ⟨0, .define, (.var "v0"), (.un "&" (.lit "line{}"))⟩,
